@@ -17,6 +17,10 @@ package ice
 //   new <cfg> <ifaces>     cfg = k=v,... (see gParseCfg); ifaces = name:flags:addr+addr/... ("-" = none)
 //   gather | restart | close | fail | release | adv <ms> | stunreply <k> <m> | turnreply <k> <ok|fail> | end
 //   gather2 (two GatherCandidates queued behind a held task loop) | grg (GatherCandidates, Restart, GatherCandidates queued)
+//   ifaces <table>  (continual gathering: replace the fake Net's interface table; zero virtual time)
+//   hold            (re-arm the gate of the fake UDP mux: the next GetListenAddresses parks until `release`)
+// cfg keys for continual gathering: cg=1 (WithContinualGatheringPolicy(GatherContinually)), mi=<ms> (WithNetworkMonitorInterval;
+//   0 = the default 2 s); such sessions print one more field, lk=<lastKnownInterfaces, sorted>.
 // addresses are tokens <class>.<idx>: g4 l4 k4 u4 (IPv4 global/loopback/link-local/unspecified),
 //   g6 l6 k6 s6 c6 u6 (IPv6 global/loopback/link-local/site-local/IPv4-compatible/unspecified),
 //   x4 x6 (external = server-reflexive), r4 (relayed).
@@ -225,6 +229,8 @@ type gCfg struct {
 	sr        string          // srflx rewrite: "" | rep | app | drop
 	hr        string          // host rewrite rule: "" | <rep|app>:<pinned local|->:<iface|->:<ext+ext+...>
 	hold      bool
+	cg        bool // continual gathering policy
+	mi        int  // network monitor interval in ms (0 = default)
 	raw       string
 	rawIfaces string
 }
@@ -285,6 +291,8 @@ func gParseCfg(s string) *gCfg {
 		c.hr = v
 	}
 	c.hold = m["hold"] == "1"
+	c.cg = m["cg"] == "1"
+	c.mi, _ = strconv.Atoi(m["mi"])
 	return c
 }
 
@@ -540,7 +548,10 @@ type gNet struct {
 
 func (n *gNet) Interfaces() ([]*transport.Interface, error) {
 	var out []*transport.Interface
-	for i, f := range n.w.ifaces {
+	n.w.mu.Lock()
+	tbl := n.w.ifaces
+	n.w.mu.Unlock()
+	for i, f := range tbl {
 		fl := net.Flags(0)
 		if f.up {
 			fl |= net.FlagUp
@@ -563,7 +574,10 @@ func (n *gNet) Interfaces() ([]*transport.Interface, error) {
 }
 
 func (n *gNet) hasAddr(tok string) bool {
-	for _, f := range n.w.ifaces {
+	n.w.mu.Lock()
+	tbl := n.w.ifaces
+	n.w.mu.Unlock()
+	for _, f := range tbl {
 		for _, a := range f.addrs {
 			if a == tok {
 				return true
@@ -1013,7 +1027,7 @@ func (w *gWorld) newAgent() (*Agent, error) {
 		ac.IPFilter = func(ip net.IP) bool { return !rej[gTok(ip)] }
 	}
 	if c.umSet {
-		m := &gUDPMux{w: w, kind: "um", gate: c.hold}
+		m := &gUDPMux{w: w, kind: "um", gate: true}
 		for i, a := range c.um {
 			_ = i
 			m.addrs = append(m.addrs, &net.UDPAddr{IP: gIP(a), Port: gUmuxPortBase})
@@ -1102,6 +1116,12 @@ func (w *gWorld) newAgent() (*Agent, error) {
 	}
 	if len(rules) > 0 {
 		opts = append(opts, WithAddressRewriteRules(rules...))
+	}
+	if c.cg {
+		opts = append(opts, WithContinualGatheringPolicy(GatherContinually))
+		if c.mi > 0 {
+			opts = append(opts, WithNetworkMonitorInterval(time.Duration(c.mi)*time.Millisecond))
+		}
 	}
 	a, err := newAgentFromConfig(ac, opts...)
 	if c.md && len(rules) > 0 && (err == nil || errors.Is(err, ErrIneffectiveNAT1To1IPMappingHost)) {
@@ -1275,6 +1295,7 @@ func (w *gWorld) render(res string) string {
 	}
 	sort.Strings(cs)
 	hid := 0
+	var lk []string
 	_ = a.loop.Run(a.loop, func(context.Context) {
 		for _, set := range a.localCandidates {
 			for _, c := range set {
@@ -1283,7 +1304,15 @@ func (w *gWorld) render(res string) string {
 				}
 			}
 		}
+		for _, ad := range a.lastKnownInterfaces {
+			tok := gTok(net.IP(ad.Unmap().AsSlice()))
+			if z := ad.Zone(); z != "" {
+				tok += "%" + strings.TrimPrefix(z, "if")
+			}
+			lk = append(lk, tok)
+		}
 	})
+	sort.Strings(lk)
 	w.prunePending()
 	ps := w.sortedPending()
 	w.mu.Lock()
@@ -1335,8 +1364,15 @@ func (w *gWorld) render(res string) string {
 		}
 		return strings.Join(l, ",")
 	}
-	return fmt.Sprintf("r=%s st=%s g=%d fl=%d t=%d c=%s ev=%s nil=%d nils=%d late=%d led=%s tot=%d/%d mg=%s held=%d hid=%d pend=%s",
+	line := fmt.Sprintf("r=%s st=%s g=%d fl=%d t=%d c=%s ev=%s nil=%d nils=%d late=%d led=%s tot=%d/%d mg=%s held=%d hid=%d pend=%s",
 		res, st, w.gen, w.failed, time.Since(w.epoch).Milliseconds(), j(cs), j(ev), nilsOp, w.nilsGen[w.gen], w.late, j(led), w.opens, w.closes, j(mg), w.held, hid, j(pend))
+	if w.cfg.cg {
+		line += " lk=" + strings.Join(lk, "+")
+		if len(lk) == 0 {
+			line += "-"
+		}
+	}
+	return line
 }
 
 func gErrTok(err error) string {
@@ -1446,6 +1482,23 @@ func (w *gWorld) exec(t []string) string {
 		return w.render("ok")
 	case "release":
 		w.releaseHold()
+		synctest.Wait()
+		return w.render("ok")
+	case "hold":
+		w.mu.Lock()
+		if w.holdCh == nil && w.cfg.umSet {
+			w.holdCh = make(chan struct{})
+		}
+		w.mu.Unlock()
+		return w.render("ok")
+	case "ifaces":
+		if len(t) < 2 {
+			return "bad-op"
+		}
+		tbl := gParseIfaces(t[1])
+		w.mu.Lock()
+		w.ifaces = tbl
+		w.mu.Unlock()
 		synctest.Wait()
 		return w.render("ok")
 	case "adv":
@@ -1741,7 +1794,7 @@ func gEndSession() string {
 }
 
 // ---------------------------------------------------------------------------------------------
-// canary sessions: which of the findings C18-G1..G5, G8, G9 (numbers 1..5, 8, 9) does the code under test still have?  The answer is
+// canary sessions: which of the findings C18-G1..G5, G8, G9, G10, C09-G11 (numbers 1..5, 8..11) does the code under test still have?  The answer is
 // printed in the `new` line (q=1+2, "-" = none) and selects the variant of the MODEL that is compared;
 // the spec monitors do not depend on it.
 // ---------------------------------------------------------------------------------------------
@@ -1792,6 +1845,14 @@ func gDetectQuirks(o *vOut) {
 	}
 	if !strings.Contains(gField(run("ct=h,nt=u4,um=g4.1,su=0,tu=0,sr=-,hr=rep:-:-:k4.70,"+base, "0:u:g4.1", "gather"), "c"), "k4.70") {
 		q = append(q, "9")
+	}
+	// C18-G10: lastKnownInterfaces is recorded after the first pass and merged into what earlier cycles left
+	if strings.Contains(gField(run("ct=h,nt=u4,um=-,su=0,tu=0,sr=-,cg=1,mi=733,"+base, "0:u:g4.1+g4.2", "gather", "ifaces 0:u:g4.1", "restart", "gather"), "lk"), "g4.2") {
+		q = append(q, "10")
+	}
+	// C09-G11: Close returns while a re-gather pass of the monitor still waits for its TURN allocation
+	if p := gField(run("ct=r,nt=u4,um=-,su=0,tu=1,sr=-,cg=1,mi=733,"+base, "0:u:g4.1", "gather", "turnreply 0 ok1", "ifaces 0:u:g4.1+g4.2", "adv 733", "close"), "pend"); p != "-" && p != "" {
+		q = append(q, "11")
 	}
 	if len(q) > 0 {
 		gQuirks = strings.Join(q, "+")
